@@ -96,6 +96,7 @@ func AppendSnapshot(b []byte, s *slip.Scope) []byte {
 	b = appendSnapshotPackages(b, s)
 	b = appendSnapshotConstants(b, s)
 	b = appendSnapshotFlavors(b, s)
+	b = appendSnapshotClasses(b, s)
 	b = appendSnapshotVars(b, s)
 	b = appendSnapshotFunctions(b, s)
 
@@ -260,6 +261,63 @@ func appendSnapshotFlavors(b []byte, s *slip.Scope) []byte {
 				}
 			}
 		}
+	}
+	return b
+}
+
+func appendSnapshotClasses(b []byte, s *slip.Scope) []byte {
+	// The classes defined with defclass or define-condition in the packages
+	// that are not part of the application.
+	var ca []slip.Class
+	seen := map[slip.Class]bool{}
+	for _, p := range slip.AllPackages() {
+		if isCorePackage(p) {
+			continue
+		}
+		for _, c := range p.AllClasses() {
+			if c.Pkg() != p || seen[c] {
+				continue
+			}
+			// A final class is defined by the application in go and can
+			// not be redefined.
+			if fc, ok := c.(interface{ IsFinal() bool }); ok && fc.IsFinal() {
+				continue
+			}
+			switch c.Metaclass() {
+			case slip.Symbol("standard-class"), slip.Symbol("condition-class"):
+				seen[c] = true
+				ca = append(ca, c)
+			}
+		}
+	}
+	sort.Slice(ca, func(i, j int) bool {
+		if ca[i].Pkg().Name == ca[j].Pkg().Name {
+			return ca[i].Name() < ca[j].Name()
+		}
+		return ca[i].Pkg().Name < ca[j].Pkg().Name
+	})
+	// A class is written after the classes it inherits from.
+	ordered := make([]slip.Class, 0, len(ca))
+	placed := map[slip.Class]bool{}
+	var place func(c slip.Class)
+	place = func(c slip.Class) {
+		if placed[c] {
+			return
+		}
+		placed[c] = true
+		for _, parent := range ca {
+			if parent != c && c.Inherits(parent) {
+				place(parent)
+			}
+		}
+		ordered = append(ordered, c)
+	}
+	for _, c := range ca {
+		place(c)
+	}
+	for _, c := range ordered {
+		b = append(b, '\n')
+		b = pp.Append(b, s, c.LoadForm())
 	}
 	return b
 }
